@@ -93,12 +93,21 @@ func c15WorldCfg(cfgName string) *world.World {
 		Logins: map[string]*world.User{"user-" + c15Sess[0]: {ID: "uid-k1b-sx", Username: "user-" + c15Sess[0], Email: "mail-k1b-sx@example.com", FullName: "Full k1b-sx",
 			Custom: []world.Custom{{Name: "role-k1b-sx", Format: "urn:fmt:k1b-sx", Values: []string{"val-k1b-sx"}}}}},
 	}}
+	// completed sessions of users with many group values (replies of about 12, 33, 57, 83 and 165 KB)
+	for _, n := range c15BigSizes {
+		tag := fmt.Sprintf("g%d-zz", n)
+		w.Store.AddUser(world.BigUser("uid-"+tag, "user-"+tag, n))
+		w.Store.Inject(world.AuthReq{ID: "sess-" + tag, AppID: "app-a", ACS: "https://sp-a.example/acs/post?m=" + tag, Binding: msg.BindPost, RequestID: "_req-" + tag, RelayState: "relay-" + tag})
+		w.Store.Complete("sess-"+tag, "uid-"+tag)
+	}
 	// a session whose login has not completed
 	w.Store.Inject(world.AuthReq{ID: "sess-p8-yy", AppID: "app-b", ACS: "https://sp-b.example/acs/post?m=p8-yy", Binding: msg.BindPost, RequestID: "_req-p8-yy", RelayState: "relay-p8-yy"})
 	return w
 }
 
-const c15Spelled = 9
+const c15Spelled = 9 + 5
+
+var c15BigSizes = []int{150, 400, 690, 1000, 2000}
 
 func c15Bodies() []c15Body {
 	sso := func(sp msg.SPMeta, host, tag string, bad bool) func(w *world.World) *http.Request {
@@ -175,7 +184,12 @@ func c15Bodies() []c15Body {
 			return world.NewRequest("POST", host, w.Cfg.SLOPath(), nil, "application/x-www-form-urlencoded", []byte(f.Encode()))
 		}
 	}
-	return []c15Body{
+	var big []c15Body
+	for _, n := range c15BigSizes {
+		tag := fmt.Sprintf("g%d-zz", n)
+		big = append(big, c15Body{fmt.Sprintf("callback-big-%d", n), []string{tag, c15HostA}, cb(tag, c15HostA)})
+	}
+	return append(big, []c15Body{
 		{"sso-post-A-unpadded-base64", []string{"w0-ua", c15HostA}, ssoPostSpelled(msg.SPA(), c15HostA, "w0-ua", "unpadded")},
 		{"sso-post-B-unpadded-base64", []string{"w1-ub", c15HostB}, ssoPostSpelled(msg.SPB(), c15HostB, "w1-ub", "unpadded")},
 		{"sso-post-B-urlsafe-base64", []string{"w2-uc", c15HostB}, ssoPostSpelled(msg.SPB(), c15HostB, "w2-uc", "urlsafe")},
@@ -204,7 +218,7 @@ func c15Bodies() []c15Body {
 		{"metadata-a", []string{c15HostA}, get(c15HostA, func(w *world.World) string { return w.Cfg.MetadataPath() })},
 		{"metadata-b", []string{c15HostB}, get(c15HostB, func(w *world.World) string { return w.Cfg.MetadataPath() })},
 		{"certificate", nil, get(c15HostA, func(w *world.World) string { return w.Cfg.CertificatePath() })},
-	}
+	}...)
 }
 
 var (
@@ -288,6 +302,7 @@ type c15Scenario struct {
 	Name   string
 	Bodies []int
 	Cfg    string // key of c15Configs
+	Prime  []int  // bodies served one after the other on the same provider BEFORE the concurrent bodies start (free-running)
 }
 
 func c15Scenarios() []c15Scenario {
@@ -313,6 +328,14 @@ func c15Scenarios() []c15Scenario {
 	}
 	for _, t := range [][]string{{"sso-A", "callback-S2", "metadata-b"}, {"callback-S1", "callback-S2", "callback-S3"}, {"logout-A", "attrquery-S2", "sso-B"}} {
 		out = append(out, c15Scenario{Name: strings.Join(t, " || "), Bodies: []int{idx(t[0]), idx(t[1]), idx(t[2])}})
+	}
+	// sizes: one large reply was served earlier by the same provider (buffers that grew and were kept), then two ordinary requests
+	// run concurrently; and the large replies themselves next to an ordinary one
+	for _, n := range c15BigSizes {
+		bigName := fmt.Sprintf("callback-big-%d", n)
+		for _, t := range [][2]string{{"callback-S1", "callback-S2"}, {"logout-A", "logout-B"}, {"sso-rejected-A", "callback-S2"}, {"attrquery-S1", "metadata-b"}} {
+			out = append(out, c15Scenario{Name: "after " + bigName + ": " + t[0] + " || " + t[1], Bodies: []int{idx(t[0]), idx(t[1])}, Prime: []int{idx(bigName)}})
+		}
 	}
 	// the two-tenant pairs again under the other provider configurations (fixed metadata URL, custom endpoint paths with an
 	// issuer path, fixed SSO / attribute URLs)
@@ -362,6 +385,9 @@ func c15RunScenario(sc c15Scenario, bound int, deadline time.Time, only []int) c
 	scenario := func() []sched.Body {
 		w := c15World()
 		curWorld = w
+		for _, bi := range sc.Prime {
+			w.Do(bs[bi].Req(w))
+		}
 		bodies := make([]sched.Body, len(sc.Bodies))
 		for i, bi := range sc.Bodies {
 			b := bs[bi]
